@@ -1,6 +1,7 @@
 import Driver.Util
--- engines of work area Sys: import your Driver.<Engine> modules above and list them here
+import Driver.Pipe
 namespace Driver.Reg.Sys
 def engines : List (String × IO UInt32) := [
+  ("pipe", Driver.runEngine Driver.Pipe.engine)
 ]
 end Driver.Reg.Sys
